@@ -109,6 +109,8 @@ def c11(tier, seed):
         {'script': 'function g() {\n    if echo checking\n        echo body\n    fi\n    while ./once\n        echo round\n    done\n    if ./no\n        echo never\n    else\n        echo other\n    fi\n}\n./pargs "$(g)"\n',
          'files': {'pargs': PARGS, 'once': '#!/bin/sh\n[ -f mark ] && exit 1\ntouch mark\necho first\n', 'no': '#!/bin/sh\necho tested\nexit 1\n'},
          'expect_stdout': _argv(['checking\nbody\nfirst\nround\ntested\nother']), 'area': 'substitution:function:output-of-the-test-commands'},
+        {'line': './pargs `echo a`/x `echo a | cat`b `echo p q`r `echo s` `echo t`$HOME/u `echo v`\\ w; ./pargs `echo y`|cat', 'files': {'pargs': PARGS},
+         'expect_stdout_prefix': _argv(['a/x', 'ab', 'p qr', 's']), 'expect_stdout_contains': _argv(['v w']) + _argv(['y']), 'area': 'substitution:backquote:text-behind-it'},
         {'line': 'X=old; X=$(./two); ./pargs "$X"; V=$(./two) printenv V', 'files': {'pargs': PARGS, 'two': '#!/bin/sh\necho l1\necho l2\n'}, 'expect_stdout': _argv(['l1\nl2']) + 'l1\nl2\n', 'area': 'substitution:assignment:multi-line-output'},
         {'line': 'cat <<< $(echo hs)', 'expect_stdout': 'hs\n', 'area': 'substitution:here-string'},
         {'line': './pargs x$(nosuchcmd-xyz)y', 'files': {'pargs': PARGS}, 'expect_stdout': _argv(['xy']), 'area': 'substitution:not-found', 'timeout': 5},
